@@ -71,8 +71,8 @@ def run_files(tag, texts, timeout=900):
         open(p, "w").write(t)
         paths.append(p)
     def one(p):
-        r = subprocess.run(["timeout", str(timeout), "coqc"] + COQFLAGS + ["-Q", d, "Cases", p], cwd=COQ,
-                           stdout=subprocess.PIPE, stderr=subprocess.STDOUT, text=True)
+        cmd = "ulimit -s unlimited 2>/dev/null || ulimit -s 1000000 2>/dev/null; exec timeout %d coqc %s -Q '%s' Cases '%s'" % (timeout, " ".join(COQFLAGS), d, p)
+        r = subprocess.run(["bash", "-c", cmd], cwd=COQ, stdout=subprocess.PIPE, stderr=subprocess.STDOUT, text=True)
         return r.returncode, r.stdout
     with ThreadPoolExecutor(max_workers=NPROC) as ex:
         outs = list(ex.map(one, paths))
@@ -88,8 +88,14 @@ def eval_codes(tag, carrier, cases, extra_imports="", shard=None, fn="check1"):
     if shard is None:
         shard = max(8, min(150, -(-len(cases) // (2 * NPROC))))
     texts = []
-    for s in range(0, len(cases), shard):
-        chunk = cases[s:s + shard]
+    bounds, cur, size = [], 0, 0
+    for i, c in enumerate(cases):                    # shards of at most `shard` cases and ~60 kB of literal text
+        size += len(c[0]) + len(c[1])
+        if i - cur + 1 >= shard or size > 60000:
+            bounds.append((cur, i + 1)); cur, size = i + 1, 0
+    if cur < len(cases): bounds.append((cur, len(cases)))
+    for (s, e_) in bounds:
+        chunk = cases[s:e_]
         body = HEADER % extra_imports
         body += "Definition cases : list (exp %s * obs %s) := [\n" % (carrier, carrier)
         body += ";\n".join("(%s,\n %s)" % c for c in chunk)
@@ -98,13 +104,13 @@ def eval_codes(tag, carrier, cases, extra_imports="", shard=None, fn="check1"):
         texts.append(body)
     outs = run_files(tag, texts)
     codes = []
-    for o, s in zip(outs, range(0, len(cases), shard)):
+    for o, (s, e_) in zip(outs, bounds):
         m = re.search(r"=\s*\[(.*?)\]\s*:\s*list nat", o, flags=re.S)
         if not m:
             raise RuntimeError("cannot parse coq output: " + o[-2000:])
         body = m.group(1).strip()
         cs = [int(x) for x in re.findall(r"\d+", body)] if body else []
-        n = min(shard, len(cases) - s)
+        n = e_ - s
         if len(cs) != n:
             raise RuntimeError("expected %d codes, got %d: %s" % (n, len(cs), o[-500:]))
         codes += cs
